@@ -38,7 +38,7 @@ pub struct Local {
     err: u64,
     from_str: u64,
     from_reader: u64,
-    muts: BTreeMap<&'static str, u64>,
+    pub muts: BTreeMap<&'static str, u64>,
     targets: BTreeMap<&'static str, u64>,
     err_kinds: BTreeMap<&'static str, u64>,
 }
@@ -53,7 +53,7 @@ pub const ATOMS: &[&str] = &[
     "</>", "<>", "< >", "</ t_s>", "<t_s", "<", ">", "]]>", "\u{FEFF}", "<$text>", "<@a/>", "<xml:x/>", "<a:b xmlns:a=\"u\"/>", "<t_pair>p</t_pair>", "<k_m>", "</k_m>", "<key>v</key>",
 ];
 
-fn mutate_tokens(r: &mut Rng, doc: &str, other: &str, loc: &mut Local) -> String {
+pub fn mutate_tokens(r: &mut Rng, doc: &str, other: &str, loc: &mut Local) -> String {
     let toks: Vec<(usize, usize)> = tokenize(doc.as_bytes(), CFG_NEUTRAL)
         .iter()
         .filter(|s| s.after > s.before)
@@ -137,7 +137,7 @@ fn mutate_tokens(r: &mut Rng, doc: &str, other: &str, loc: &mut Local) -> String
     parts.concat()
 }
 
-fn soup(r: &mut Rng) -> String {
+pub fn soup(r: &mut Rng) -> String {
     let n = r.below(14);
     let mut s = String::new();
     for _ in 0..n {
